@@ -163,7 +163,7 @@ def default_cfg(rng=None, **over):
 def gen_cfg(rng, world, fault_rate=0.35):
     """Draw a resolver configuration and a transport fault plan (pure)."""
     caches = ["lru", "lru", "pass", "lru1", "lru2"]
-    schemes = rng.choice([["http", "https", "sim"], ["http", "https", "sim"], ["sim"], ["http"], []])
+    schemes = rng.choice([["http", "https", "sim", "urn"], ["http", "https", "sim"], ["sim", "urn"], ["http"], []])
     faults = {}
     for u in world["docs"]:
         if rng.random() < fault_rate:
@@ -172,6 +172,11 @@ def gen_cfg(rng, world, fault_rate=0.35):
                          "kind": rng.choice(["net_error", "net_short_body", "net_bad_utf8",
                                              "net_not_json", "net_read_error"]),
                          "cut": rng.randrange(0, 64), "silent": rng.random() < 0.15}
+        if rng.random() < 0.05:
+            # a handler that hands back the raw JSON TEXT instead of a parsed document (a frequent mistake): the
+            # library stores and uses what it is given - consistently, whatever the validator did before
+            faults.setdefault(u, {"fail_first": 0, "exc": "OSError", "kind": "net_error", "cut": 0, "silent": False})
+            faults[u]["returns"] = rng.choice(["str", "bytes"])
     return {"cache_remote": rng.random() < 0.65, "urljoin_cache": rng.choice(caches),
             "remote_cache": rng.choice(caches), "handler_schemes": schemes,
             "base_mode": rng.choice(["from_schema", "explicit", "from_schema", "explicit", "above"]),
@@ -192,7 +197,7 @@ def _splittable(url):
 
 
 class Actor(object):
-    def __init__(self, world, cfg, router, calls=None, shared_from=None, store_from=None):
+    def __init__(self, world, cfg, router, calls=None, shared_from=None, store_from=None, defer=False):
         from jsonschema import RefResolver
         self.world = world
         self.cfg = cfg
@@ -268,42 +273,80 @@ class Actor(object):
             if kind == "lru2":
                 return functools.lru_cache(2)(fn)
             raise KeyError(kind)
-        kwargs = dict(store=store, cache_remote=cfg.get("cache_remote", True), handlers=handlers,
-                      urljoin_cache=mk(cfg.get("urljoin_cache", "lru"), urljoin),
-                      remote_cache=mk(cfg.get("remote_cache", "lru"), rfu))
         idkw = idkw_of(draft)
         if default_resolver:
-            resolver = None
+            mode = "default"
         elif shared_from is not None and shared_from.explicit_base is not None:
             self.explicit_base = shared_from.explicit_base
-            resolver = RefResolver(self.explicit_base, root, **kwargs)
+            mode = "explicit"
         elif (shared_from is None and cfg.get("base_mode") == "explicit"
                 and isinstance(root, dict) and root.get(idkw)):
-            base = root.pop(idkw)
-            self.explicit_base = base
-            resolver = RefResolver(base, root, **kwargs)
+            self.explicit_base = root.pop(idkw)
+            mode = "explicit"
         elif above is not None:
             self.explicit_base = above
-            resolver = RefResolver(above, root, **kwargs)
+            mode = "explicit"
         else:
-            resolver = RefResolver.from_schema(root, id_of=self.cls.ID_OF, **kwargs)
-        if default_resolver:
-            self.validator = self.cls(root, format_checker=self.fc)
-            resolver = self.validator.resolver
-        else:
-            self.validator = self.cls(root, resolver=resolver, format_checker=self.fc)
-        holder.append(resolver)
-        self.resolver = resolver
-        # further validators that share this resolver (used sequentially; C15: fetch counts are per resolver)
-        self.validators = [self.validator] + [
-            self.cls({"$ref": r}, resolver=resolver, format_checker=self.fc) for r in cfg.get("extra_validators", ())]
-        self.scope0 = resolver.resolution_scope
-        self.install_depth_counter()
-        self.root0 = fast(root)
-        self.store0 = self.store_snapshot()
-        self.store_keys0 = sorted(self.store0)
+            mode = "from_schema"
+
+        def construct():
+            """(resolver, validator) built the way this actor's user builds them - callable again later
+            (operation `rebuild`: the user constructs a new validator object for the same schema)."""
+            kwargs = dict(store=store, cache_remote=cfg.get("cache_remote", True), handlers=handlers,
+                          urljoin_cache=mk(cfg.get("urljoin_cache", "lru"), urljoin),
+                          remote_cache=mk(cfg.get("remote_cache", "lru"), rfu))
+            if mode == "default":
+                validator = self.cls(root, format_checker=self.fc)
+                resolver = validator.resolver
+            else:
+                if mode == "explicit":
+                    resolver = RefResolver(self.explicit_base, root, **kwargs)
+                else:
+                    resolver = RefResolver.from_schema(root, id_of=self.cls.ID_OF, **kwargs)
+                validator = self.cls(root, resolver=resolver, format_checker=self.fc)
+            holder[:] = [resolver]
+            return resolver, validator
+        self._construct = construct
+        self._rebuildable = store_from is None
         self.pending_cycle = False   # an abandoned iterator may still be suspended (cyclic drop)
         self.probes = {}
+        self.root0 = fast(root)
+        self.constructed = False
+        if not defer:
+            self.finish_construction()
+
+    def finish_construction(self):
+        """Build resolver and validator (library constructors) and take the baseline observations.  Normally part of
+        __init__; with defer=True the actor's own thread does it as the first step of its program, so that
+        construction, too, runs under the scheduler."""
+        if self.constructed:
+            return
+        self.constructed = True
+        self.resolver, self.validator = self._construct()
+        resolver = self.resolver
+        # further validators that share this resolver (used sequentially; C15: fetch counts are per resolver)
+        self.validators = [self.validator] + [
+            self.cls({"$ref": r}, resolver=resolver, format_checker=self.fc) for r in self.cfg.get("extra_validators", ())]
+        self.scope0 = resolver.resolution_scope
+        self.install_depth_counter()
+        self.store0 = self.store_snapshot()
+        self.store_keys0 = sorted(self.store0)
+
+    def rebuild(self):
+        """The user throws the validator object away and constructs a new one for the same schema object, store
+        documents, handlers and cache functions (library constructors run here, under whatever scheduler is on)."""
+        if not self._rebuildable:
+            return False
+        self.resolver, self.validator = self._construct()
+        self.validators = [self.validator] + [
+            self.cls({"$ref": r}, resolver=self.resolver, format_checker=self.fc)
+            for r in self.cfg.get("extra_validators", ())]
+        self.scope0 = self.resolver.resolution_scope
+        self.install_depth_counter()
+        self.store0 = self.store_snapshot()
+        self.store_keys0 = sorted(self.store0)
+        self.pending_cycle = False
+        return True
 
     # ---- observation helpers -------------------------------------------
     def store_snapshot(self):
@@ -344,6 +387,8 @@ class Actor(object):
         """Reach probe only: number of scopes currently pushed (1 = just the base)."""
         if getattr(self, "_depth", None) is not None:
             return self._depth[0]
+        if getattr(self, "resolver", None) is None:
+            return 1                      # (not built yet, or being built right now: nothing pushed)
         st = getattr(self.resolver, "_scopes_stack", None)      # fallback: private read
         return len(st) if st is not None else -1
 
@@ -398,7 +443,13 @@ class Actor(object):
             if k in self.store0:
                 continue
             src = self.transport.docs.get(k)
-            if src is not None and fast(src) != v:
+            ret = (self.transport.plan.get(k) or {}).get("returns")
+            ok_forms = [] if src is None else [fast(src)]
+            if src is not None and ret:
+                import json as _json
+                text = _json.dumps(src)     # through its HANDLER this document arrives as text, and is stored as such
+                ok_forms.append(fast(text if ret == "str" else text.encode("utf-8")))
+            if src is not None and v not in ok_forms:
                 out.append({"oracle": "store-document-mutated", "where": where, "detail": {"key": k}})
         return out
 
@@ -656,6 +707,17 @@ def do_op(actor, op, instances):
                           raise ConsumerDied()
                       n += 1
               out = {"k": "value", "v": n}
+          elif kind == "rebuild":
+              out = {"k": "value", "v": bool(actor.rebuild())}
+              v, r = actor.validator, actor.resolver
+              actor.probe("validator_rebuilt_mid_history")
+          elif kind == "register":
+              # the user registers a dialect of their own (process-wide registry; an id nobody else uses)
+              from jsonschema import validators as _V
+              _V.create(meta_schema={"$id": op["uid"], "id": op["uid"]}, validators=dict(actor.cls.VALIDATORS),
+                        version="dsim " + op["uid"], type_checker=actor.cls.TYPE_CHECKER, id_of=actor.cls.ID_OF)
+              out = {"k": "none"}
+              actor.probe("class_registered_mid_history")
           elif kind == "resolve":
               url, resolved = r.resolve(op["ref"])
               out = {"k": "value", "v": [url, typed(resolved)]}
